@@ -18,6 +18,11 @@ CONSTANTS
   DevSleepLimiter = TRUE
   DevWriteLock = FALSE
   DevRouteFirst = FALSE
+  DevCleanupFirst = FALSE
+  DevLegRegistered = FALSE
+  DevBufio = FALSE
+  AttachKinds = {"local"}
+  HoldOn = FALSE
   Gen = FALSE
   Emit = FALSE
 SPECIFICATION LiveSpec
